@@ -152,8 +152,56 @@ def introspect():
                     continue
                 if isinstance(cv, _re.Pattern):
                     pats.add((cv.pattern, cv.flags))
+    # every compiled regular expression held by the other modules of the expansion path (module globals, closure cells, class
+    # attributes) and by a Parser instance of every known site (name2rx is built from the site's magic word aliases)
+    import importlib
+    rx = set()
+
+    def _collect(tag, ns):
+        for v in list(ns.values()):
+            if isinstance(v, _re.Pattern):
+                rx.add((tag, v.pattern, v.flags))
+            elif inspect.isfunction(v) and v.__closure__:
+                for cell in v.__closure__:
+                    try:
+                        cv = cell.cell_contents
+                    except ValueError:
+                        continue
+                    if isinstance(cv, _re.Pattern):
+                        rx.add((tag, cv.pattern, cv.flags))
+            elif inspect.isclass(v) and getattr(v, "__module__", None) == ns.get("__name__"):
+                for cv in vars(v).values():
+                    if isinstance(cv, _re.Pattern):
+                        rx.add((tag, cv.pattern, cv.flags))
+
+    rx_errors = []
+    for modname in ("mwlib.parser.templ.magics", "mwlib.parser.templ.magic_nodes", "mwlib.parser.templ.magic_time", "mwlib.parser.expr",
+                    "mwlib.parser.templ.parser", "mwlib.parser.templ.scanner"):
+        try:
+            _collect(modname.split(".")[-1], vars(importlib.import_module(modname)))
+        except Exception as e:  # noqa: BLE001
+            rx_errors.append("%s: %s: %s" % (modname, type(e).__name__, e))
+    try:
+        from mwlib.network import siteinfo as _si
+        from mwlib.parser.templ.parser import Parser as _Parser
+        d = os.path.join(os.path.dirname(_si.__file__), "known_sites")
+        for fn in sorted(os.listdir(d)):
+            if fn.startswith("siteinfo-") and fn.endswith(".json"):
+                lang = fn[len("siteinfo-"):-len(".json")]
+                pr = _Parser("x", siteinfo=get_siteinfo(lang))
+                for v in vars(pr).values():
+                    if isinstance(v, _re.Pattern):
+                        rx.add(("parser-instance:" + lang, v.pattern, v.flags))
+                    elif isinstance(v, dict):
+                        for cv in v.values():
+                            if isinstance(cv, _re.Pattern):
+                                rx.add(("parser-instance:" + lang, cv.pattern, cv.flags))
+    except Exception as e:  # noqa: BLE001
+        rx_errors.append("Parser instances: %s: %s" % (type(e).__name__, e))
+    dummies = sorted(k for k in vars(magics.DummyResolver) if not k.startswith("_")) if hasattr(magics, "DummyResolver") else []
     return {"public": names, "chains": chains, "registry": sorted(magic_nodes.registry), "registry_info": reg,
-            "file": magics.__file__, "pp_patterns": sorted([p, f] for p, f in pats)}
+            "file": magics.__file__, "pp_patterns": sorted([p, f] for p, f in pats),
+            "rx_patterns": sorted([t, p, f] for t, p, f in rx), "rx_errors": rx_errors, "dummies": dummies}
 
 
 def run_one(req):
